@@ -31,6 +31,7 @@ type Case struct {
 type Run struct {
 	Procs   int           `json:"procs"`
 	Profile int           `json:"profile"`
+	Reader  string        `json:"reader"`
 	Elems   []interface{} `json:"elems"`
 	Mutated []bool        `json:"mutated"`
 	Shown   []interface{} `json:"shown"`
@@ -148,9 +149,11 @@ func main() {
 					snaps = append(snaps, deepCopy(o))
 					run.Elems = append(run.Elems, p.RecObject(o)) // the value at the moment Scan returned it
 				}
-				r := pbfrec.Scan(data, procs, false, configure, onObj, 60*time.Second)
+				rk := pbfrec.ReaderKindFor(line, *seed, pi, procs)
+				run.Reader = rk
+				r := pbfrec.ScanFrom(pbfrec.NewReader(rk, data, *seed), procs, false, configure, onObj, 60*time.Second)
 				if r.Hang {
-					run = Run{Procs: procs, Profile: pi, Elems: []interface{}{}, Mutated: []bool{}, Err: "hang"}
+					run = Run{Procs: procs, Profile: pi, Reader: rk, Elems: []interface{}{}, Mutated: []bool{}, Err: "hang"}
 				} else {
 					run.Err = pbfrec.ErrStr(r.Err)
 					for k, o := range r.Objects {
